@@ -275,7 +275,7 @@ func c16Gen(ctx *core.Ctx) {
 	exhLen := 5
 	sample := 3
 	if ctx.Thorough {
-		exhLen = 12
+		exhLen = 10
 		sample = 40
 	}
 	for n := -1; n <= 16; n++ {
@@ -292,7 +292,7 @@ func c16Gen(ctx *core.Ctx) {
 						cons := c16Consumers(r, n)
 						// every composition with one random consumer; boundary ones with all
 						pick := []c16Consumer{cons[r.Intn(len(cons))]}
-						if ln >= n && ln <= n+1 || ctx.Thorough {
+						if ln >= n && ln <= n+1 || (ctx.Thorough && ln <= 7) {
 							pick = cons
 						}
 						for _, c := range pick {
